@@ -177,3 +177,42 @@ Definition style_eqb (a b : style) : bool :=
   ocolor_eqb (st_ul a) (st_ul b) && (st_eff a =? st_eff b).
 
 Definition st_eq_effects (s : style) (e : N) : bool := style_eqb s (st_from_effects e).
+
+(* ---- adapters for the function translator (tools/gen_fn_style.py -> Generated/StyleFn.v) ----
+   Definitions only; nothing above depends on them.  The tuple structs `Effects(u16)` and
+   `EffectsDisplay(Effects)` are their field (identity getters / setters / constructors); the
+   two iterator structs of effect.rs share one record; per-field setters of [style]. *)
+Definition eff_f0 (e : N) : N := e.                     (* self.0 *)
+Definition set_eff_f0 (e v : N) : N := v.               (* self.0 = v *)
+Definition eff_new (v : N) : N := v.                    (* Effects(v) *)
+Definition effd_f0 (d : N) : N := d.                    (* EffectsDisplay: self.0 *)
+Definition effd_new (e : N) : N := e.                   (* EffectsDisplay(e) *)
+
+(* `a << i` at width w: panics (debug build) when i >= w; bits shifted out are dropped *)
+Definition cshl (w a i : N) : option N := if i <? w then Some (N.shiftl a i mod 2 ^ w) else None.
+
+(* struct EffectIter / EffectIndexIter { index: usize, effects: Effects } *)
+Record eff_iter : Set := mkEffIter { ei_index : N; ei_effects : N }.
+Definition set_ei_index (it : eff_iter) (v : N) : eff_iter := mkEffIter v (ei_effects it).
+Definition set_ei_effects (it : eff_iter) (v : N) : eff_iter := mkEffIter (ei_index it) v.
+
+(* struct Metadata { name, escape }: a row of [metadata] *)
+Definition md_name (m : list N * list N) : list N := fst m.
+Definition md_escape (m : list N * list N) : list N := snd m.
+
+Definition set_st_fg (s : style) (v : option color) : style := mkStyle v (st_bg s) (st_ul s) (st_eff s).
+Definition set_st_bg (s : style) (v : option color) : style := mkStyle (st_fg s) v (st_ul s) (st_eff s).
+Definition set_st_ul (s : style) (v : option color) : style := mkStyle (st_fg s) (st_bg s) v (st_eff s).
+Definition set_st_eff (s : style) (v : N) : style := mkStyle (st_fg s) (st_bg s) (st_ul s) v.
+
+(* struct Ansi256Color(u8): the index itself *)
+Definition a256_f0 (i : N) : N := i.
+Definition a256_of (v : N) : N := v.
+
+(* core::fmt::Formatter over an infallible sink = the text written so far; write_str appends *)
+Definition fmt_write_str (f s : list N) : list N := f ++ s.
+
+(* Iterator::enumerate on the collected items *)
+Fixpoint enumerate_from {A} (i : N) (l : list A) : list (N * A) :=
+  match l with [] => [] | x :: t => (i, x) :: enumerate_from (i + 1) t end.
+Definition enumerate0 {A} (l : list A) : list (N * A) := enumerate_from 0 l.
